@@ -282,8 +282,9 @@ def parameter_order_cases():
             p["recipes"][0]["priors"] = []
             p["recipes"][0]["subs"] = []
             tag = "+".join(("%s%s" % ({"singular": "s", "plus": "p", "star": "x"}[k], "=" if dflt else "")) for k, dflt in sig)
-            yield p, ({"verdict": "reject", "kind": "paramOrder", "offender": [bad], "nomodel": True, "any_rejection": bad == "syntax"} if bad
-                      else {"verdict": "accept", "nomodel": True}), tag
+            pm = [{"kind": k, "default": [{"lit": {"s": "d"}}] if dflt else None} for k, dflt in sig]
+            yield p, ({"verdict": "reject", "kind": "paramOrder", "offender": [bad], "nomodel": True, "any_rejection": bad == "syntax", "params_model": pm} if bad
+                      else {"verdict": "accept", "nomodel": True, "params_model": pm}), tag
 
 
 def class_accepts(cls, n):
@@ -633,6 +634,17 @@ def run(report):
         cases.append((p, exp, "random-valid/%d" % i))
     results = C.pmap(run_case, cases)
     model = drv.pbatch([{"op": "analyze", "module": model_of(p)} for p, _, _ in cases], chunk=500)
+    # parameter lists: the analyzer's verdict against Just.Args.validParams (the hypothesis of C05's bind_total)
+    pcases = [(exp, r) for (p_, exp, tag_), r in zip(cases, results) if "params_model" in exp]
+    pmod = drv.pbatch([{"op": "validparams", "params": exp["params_model"]} for exp, _ in pcases], chunk=2000)
+    for (exp, r), m in zip(pcases, pmod):
+        if "fatal" in m:
+            raise C.BuildError("model driver: " + m["fatal"])
+        if m["valid"] != (r["dump_rc"] == 0):
+            report.failure("c03-model-validparams", "Just.Args.validParams and the analyzer disagree on a parameter list",
+                           {"correspondence": "C03 parameter lists vs Just.Args.validParams", "params": exp["params_model"], "model": m,
+                            "impl_accepts": r["dump_rc"] == 0, "stderr": r["dump_err"][-200:]}, no_input=True)
+            break
     # duplicate definitions: kinds x orders x settings, against the statement and against Just.Define
     dcases, dtotal = dup_matrix(tier, report.seed)
     dres = C.pmap(run_dup, dcases)
